@@ -14,7 +14,7 @@ mv tests/seed_demo.rs /tmp/cs_${name}_demo.rs
 suite=$(cargo test --offline --workspace --no-fail-fast 2>&1 | grep -E "^test result|warning: unused|^error" )
 nfail=$(echo "$suite" | grep -cE "FAILED|^error")
 mv /tmp/cs_${name}_demo.rs tests/seed_demo.rs
-r2=$(cargo test --offline --test seed_demo 2>&1 | grep -E "^test result|error\[" | tail -1)
+r2=$(cargo test --offline --test seed_demo 2>&1 | grep -E "^test result|error\[|signal: |process didn't exit successfully" | tail -1 | sed 's/signal: /FAILED (crashed) signal: /; s/process didn.t exit successfully/FAILED (crashed)/')
 cd /; git -C /repo worktree remove --force $wt
 echo "without patch: $r1"; echo "suite with patch: failing binaries=$nfail"; echo "with patch: $r2"
 if echo "$r1" | grep -q "ok\." && [ "$nfail" = 0 ] && echo "$r2" | grep -q FAILED; then echo "CONFIRMED $name"; else echo "REJECTED $name"; fi
